@@ -94,6 +94,7 @@ func shortPkg(p string) string {
 // machine returns a fold machine with the default models.
 func (c *Ctx) machine() *fold.Machine {
 	m := &fold.Machine{
+		OnExplored: c.noteExploration,
 		Prog:       c.P.Prog,
 		GlobalInit: c.Ix.Init,
 		Models:     map[string]fold.Model{},
@@ -152,7 +153,72 @@ func (c *Ctx) machine() *fold.Machine {
 	m.Models["unicode/utf8.ValidString"] = func(cl *fold.Call) fold.Val {
 		return fold.Bool(cl.M.Atom("utf8valid(" + fold.Show(cl.Args[0]) + ")"))
 	}
+	addPureByteModels(m)
 	return m
+}
+
+// addPureByteModels gives the side-effect free predicates and searches of
+// bytes / strings their exact meaning on concrete arguments, so that a helper
+// may be rewritten with them without a fold losing track; on symbolic
+// arguments they fork (predicates) or return any position (searches). Rules
+// that need names for such outcomes install their own models afterwards.
+func addPureByteModels(m *fold.Machine) {
+	pred := func(name string, f func(a, b string) bool) {
+		model := func(cl *fold.Call) fold.Val {
+			a, ok1 := concreteBytes(cl.M, cl.Args[0])
+			b, ok2 := concreteBytes(cl.M, cl.Args[1])
+			if ok1 && ok2 {
+				return fold.Bool(f(string(a), string(b)))
+			}
+			return fold.Bool(cl.M.Atom(fmt.Sprintf("%s(%s,%s)#%d", name, fold.Show(cl.Args[0]), fold.Show(cl.Args[1]), cl.Seq)))
+		}
+		m.Models["bytes."+name] = model
+		m.Models["strings."+name] = model
+	}
+	pred("Equal", func(a, b string) bool { return a == b })
+	pred("HasPrefix", strings.HasPrefix)
+	pred("HasSuffix", strings.HasSuffix)
+	pred("Contains", strings.Contains)
+	pred("EqualFold", strings.EqualFold)
+	delete(m.Models, "strings.Equal")
+	search := func(name string, f func(a, b string) int) {
+		model := func(cl *fold.Call) fold.Val {
+			a, ok1 := concreteBytes(cl.M, cl.Args[0])
+			b, ok2 := concreteBytes(cl.M, cl.Args[1])
+			if ok1 && ok2 {
+				return fold.K(int64(f(string(a), string(b))))
+			}
+			l := fold.LenOf(cl.Args[0])
+			hi := l.Hi
+			if l.Top {
+				hi = fold.MaxInt64
+			}
+			return fold.Int{Lo: -1, Hi: hi, Name: fmt.Sprintf("%s#%d", name, cl.Seq)}
+		}
+		m.Models["bytes."+name] = model
+		m.Models["strings."+name] = model
+	}
+	search("Index", strings.Index)
+	search("LastIndex", strings.LastIndex)
+	searchByte := func(name string, f func(a string, c byte) int) {
+		model := func(cl *fold.Call) fold.Val {
+			a, ok := concreteBytes(cl.M, cl.Args[0])
+			ch, isInt := cl.Args[1].(fold.Int)
+			if ok && isInt && ch.IsConst() {
+				return fold.K(int64(f(string(a), byte(ch.Const()))))
+			}
+			l := fold.LenOf(cl.Args[0])
+			hi := l.Hi
+			if l.Top {
+				hi = fold.MaxInt64
+			}
+			return fold.Int{Lo: -1, Hi: hi, Name: fmt.Sprintf("%s#%d", name, cl.Seq)}
+		}
+		m.Models["bytes."+name] = model
+		m.Models["strings."+name] = model
+	}
+	searchByte("IndexByte", strings.IndexByte)
+	searchByte("LastIndexByte", strings.LastIndexByte)
 }
 
 // globalVal returns the value a load of the global yields in the evaluator.
